@@ -2,7 +2,7 @@
       The proof is generic in the encoding: it uses only that the encoding's numerals are closed and that its
       is_zero / pred / add / mul constants satisfy their specifications (proved in the *Arith files). *)
 From LC Require Import Spec.NorEval Spec.Encodings Gen.Terms Proofs.Laws Proofs.Convert Proofs.ChurchArith
-  Proofs.ScottArith Proofs.ParigotArith Proofs.StumpFuArith.
+  Proofs.ScottArith Proofs.ParigotArith Proofs.StumpFuArith Proofs.RedSetoid.
 
 (** ** the shapes of the generated constants *)
 Definition simpG (iz pr : term) : term :=
@@ -25,31 +25,6 @@ Definition mul_t (iz pr ad ml : term) : term :=
     (lc_pair_pair @ (ad @ (ml @ (lc_pair_fst @ v2) @ (lc_pair_fst @ v1)) @ (ml @ (lc_pair_snd @ v2) @ (lc_pair_snd @ v1)))
                   @ (ad @ (ml @ (lc_pair_fst @ v2) @ (lc_pair_snd @ v1)) @ (ml @ (lc_pair_snd @ v2) @ (lc_pair_fst @ v1)))))).
 
-(** pairs in normal form *)
-Lemma pair_sel x y s : closed x = true -> closed y = true -> red (pair_t x y @ s) (s @ x @ y).
-Proof.
-  intros Cx Cy. unfold pair_t. eapply star_step; [apply s_beta|]. cbn [subst Nat.compare Nat.sub].
-  rewrite !subst_closed by (auto || lia). rewrite shift_0. apply star_refl.
-Qed.
-Lemma fst_pair x y : closed x = true -> closed y = true -> red (lc_pair_fst @ pair_t x y) x.
-Proof.
-  intros Cx Cy. unfold lc_pair_fst. eapply star_step; [apply s_beta|]. cbn [subst Nat.compare Nat.sub]. rewrite shift_0.
-  eapply star_trans; [apply pair_sel; auto|]. apply (bool_app true).
-Qed.
-Lemma snd_pair x y : closed x = true -> closed y = true -> red (lc_pair_snd @ pair_t x y) y.
-Proof.
-  intros Cx Cy. unfold lc_pair_snd. eapply star_step; [apply s_beta|]. cbn [subst Nat.compare Nat.sub]. rewrite shift_0.
-  eapply star_trans; [apply pair_sel; auto|]. apply (bool_app false).
-Qed.
-Lemma mk_pair x y : closed x = true -> closed y = true -> red (lc_pair_pair @ x @ y) (pair_t x y).
-Proof.
-  intros Cx Cy. pose proof (pair_law x y) as H. unfold up1 in H. rewrite !shift_closed in H by auto. exact H.
-Qed.
-Lemma pair_closed x y : closed x = true -> closed y = true -> closed (pair_t x y) = true.
-Proof.
-  unfold closed, pair_t. intros Cx Cy. cbn [closed_at Nat.leb]. 
-  rewrite (closed_at_mono 0 1 x), (closed_at_mono 0 1 y) by (auto || lia). reflexivity.
-Qed.
 Lemma swap_open : red (lc_pair_swap @ Abs (v1 @ v2 @ v3)) (Abs (v1 @ v3 @ v2)). Proof. open_law. Qed.
 Lemma neg_is_swap : lc_num_signed_neg = lc_pair_swap. Proof. reflexivity. Qed.
 
